@@ -52,6 +52,11 @@ def base_definitions():
                          'n': {'type': 'numeric_bytecode', 'bytecode': {'size': 4, 'min': 1, 'max': 9}}}}}}}
     m['instructions']['var'] = {'bytecode': {'value': 0xD, 'size': 4}, 'operands': {'count': 1, 'operand_sets': {'list': ['reg']}},
                                 'variants': [{'bytecode': {'value': 0xE, 'size': 4}, 'operands': {'count': 1, 'operand_sets': {'list': ['imm']}}}]}
+    # both an operand-set list and an explicitly listed combination
+    m['instructions']['bth'] = {'bytecode': {'value': 0xC, 'size': 4}, 'operands': {'count': 2, 'operand_sets': {'list': ['reg', 'imm']},
+                                'specific_operands': {'sp_n': {'list': {
+                                    'r': {'type': 'register', 'register': 'sp', 'bytecode': {'value': 3, 'size': 4}},
+                                    'n': {'type': 'numeric', 'bytecode': {'value': 2, 'size': 4}, 'argument': {'size': 8, 'byte_align': True}}}}}}}
     m['operand_sets']['xr'] = {'operand_values': {
         'ir': {'type': 'indirect_register', 'register': 'sp', 'bytecode': {'value': 1, 'size': 2}},
         'xi': {'type': 'indexed_register', 'register': 'a', 'bytecode': {'value': 2, 'size': 2},
@@ -140,6 +145,17 @@ def faults(isa, limit=None):
                     d = clone()
                     variants_of(d['instructions'][mn])[vi]['operands']['count'] = n + delta
                     yield f'{mn} variant {vi}: count := len{delta:+d} (specific operands only)', d
+            # every explicitly listed combination must list exactly `count` operands, whatever else the variant declares
+            for cname, comb in (ops.get('specific_operands') or {}).items():
+                keys = list(comb['list'])
+                if len(keys) > 1:
+                    d = clone()
+                    del variants_of(d['instructions'][mn])[vi]['operands']['specific_operands'][cname]['list'][keys[-1]]
+                    yield f'{mn} variant {vi}: combination {cname} lists one operand too few', d
+                d = clone()
+                lst = variants_of(d['instructions'][mn])[vi]['operands']['specific_operands'][cname]['list']
+                lst['extra_q'] = copy.deepcopy(lst[keys[0]])
+                yield f'{mn} variant {vi}: combination {cname} lists one operand too many', d
             sites += 1
     for mac, vs in list((isa.get('macros') or {}).items())[:limit]:
         for vi, v in enumerate(vs):
@@ -195,7 +211,7 @@ def meta(tier):
         'rule': '(a) base definitions (2 generated with every section, the 9 shipped with the repository) must load; (b) every fault of the '
                 'catalogue at every applicable site of the generated bases (first sites only for the shipped ones): delete general / '
                 'instructions, mnemonic / macro / register := keyword (each keyword, lower and upper case for mnemonics), macro := '
-                'instruction name, undeclared operand set (instruction and macro), undeclared register, count := len+-1, inverted '
+                'instruction name, undeclared operand set (instruction and macro), undeclared register, count := len+-1, an explicitly listed combination with one operand too few / too many, inverted '
                 'numeric_bytecode range, zone end := 2^bits, start := end+1, start := -1; (c) min_version := x.y.z[pre] over '
                 'x in {0,1}, y,z in {0,2,3,4,5,9,10,30}, pre in {none,a1,b1,b2}; (d) #require "<name> <op> <v>" over ISA version x '
                 '5 operators x an 8-version pool whose numeric and lexical orders differ x {matching, other} name; '
